@@ -42,6 +42,11 @@ func init() {
 		Rewrites: []Rewrite{{Dir: "match", VRange: true}, {Dir: "core", VRange: true}}}
 }
 
+func init() {
+	harnesses["mcrew"] = &Harness{Name: "mcrew", Pkg: "cmd/mcrew", InPkgSrc: "harness/inpkg/mcrew", Race: true,
+		Rewrites: []Rewrite{{Dir: "cmd/mcrew", Shim: true, VRange: true}, {Dir: "crew", Shim: true}}}
+}
+
 var commonAssumptions = []string{
 	"bounds are bounds: nothing is claimed beyond the stated alphabet/size/deviation bounds",
 	"instrumentation is a text-spliced copy of the current working tree applied with go -overlay; the Go toolchain, goja and bbolt are trusted",
@@ -59,6 +64,12 @@ func init() {
 }
 
 var checks = map[string]*Check{
+	"C17": {ID: "C17", Harness: "mcrew", Func: "C17mcrew", Category: "model_checking", QuickDeadline: 240, ThoroughDeadline: 1500, GoMaxProcs: 1,
+		Engine: "E2", DesignRef: "6/C17",
+		Technique: "stateless schedule exploration (controlled cooperative scheduler over shimmed sync/time, virtual clock, DFS with deviation bounding) of the real timer implementations, with a per-id monitor automaton on every execution",
+		LevelText: "For every short request scenario (requests before, during - from the firing handler - and after a firing) every schedule of requester, timer goroutines and timer-fire events within the deviation bound is executed on the real Timers code under a controlled scheduler with virtual time; a monitor checks at-most-once, never-early, never-after-successful-cancel, exactly-once at the end of time, pending-set equality and id reuse.",
+		LevelNote: "Trusted: the scheduler (rt/sched): quiescence by runtime.Stack inspection, channel operations are not choice points (each step issues at most one waking event; counted otherwise). Go's select fairness and real-time effects are outside the model.",
+		Assumptions: commonAssumptions},
 	"C03": {ID: "C03", Harness: "match", Func: "C03", Category: "model_checking", QuickDeadline: 240, ThoroughDeadline: 1500, Race: true,
 		Engine: "E1", DesignRef: "6/C03",
 		Technique: "bounded-exhaustive input enumeration x deviation-bounded exhaustive exploration of map-iteration orders (every range over a map is an explicit choice point owned by the explorer) with deep argument snapshots; plus a free-running race-detector pass with shared arguments",
